@@ -232,7 +232,7 @@ pub fn random<const N: usize, P: Pad>(ctx: &mut Ctx) {
                         fault = Some((*rng.pick(ks), 1 + rng.below(3) as u32));
                     }
                 }
-                if ctx.attribute.is_some() && N <= 64 {
+                if ctx.attribute.is_some() {
                     control_step(&h, &model, &op, ctx, &mon);
                 }
                 let out = step(&mut h, &mut model, &op, &mut env, ctx, &mon, fault, Some(&pre));
